@@ -223,6 +223,8 @@ type fakeListener struct {
 	closed chan struct{}
 	once   sync.Once
 	errs   chan error
+	mu       sync.Mutex
+	isClosed bool
 }
 
 func (l *fakeListener) Accept() (net.Conn, error) {
@@ -240,11 +242,26 @@ func (l *fakeListener) Accept() (net.Conn, error) {
 		l.w.log("ae")
 		return nil, e
 	case c := <-l.queue:
+		// a closed listener accepts nothing: decide and log under the mutex Close takes,
+		// so that an accepted connection is logged before anything Close causes
+		l.mu.Lock()
+		if l.isClosed {
+			l.mu.Unlock()
+			l.w.log("ae")
+			return nil, net.ErrClosed
+		}
 		l.w.log(fmt.Sprintf("ao.%d", c.id))
+		l.mu.Unlock()
 		return c, nil
 	}
 }
-func (l *fakeListener) Close() error   { l.once.Do(func() { close(l.closed) }); return nil }
+func (l *fakeListener) Close() error {
+	l.mu.Lock()
+	l.isClosed = true
+	l.mu.Unlock()
+	l.once.Do(func() { close(l.closed) })
+	return nil
+}
 func (l *fakeListener) Addr() net.Addr { return idAddr{0} }
 
 type fakeConn struct {
